@@ -4,7 +4,6 @@
 From Coq Require Import ZArith QArith List Bool Arith Lia.
 From PV Require Import Lib.Py Model.Ops Model.Arrays Model.LookupCore Model.Lookup Model.CseCells
   Proofs.PyTac Proofs.C10 Proofs.C10Total Proofs.C13.
-From PV Require Proofs.C16.
 From PV Require Gen.excelutil Gen.arrayfit.
 Import ListNotations.
 Open Scope Z_scope.
@@ -28,6 +27,56 @@ Proof.
   unfold err_wrapper. cbn [err_params nth_error bind]. reflexivity.
 Qed.
 
+(* INDEX(t, i, k) = t[i-1][k-1] inside a rectangular table (the lemmas of
+   Proofs/C16.v on Model/LookupCore.v index_, restated here so that C13 does not
+   depend on C16's proofs about the generated lookup code) *)
+Definition zrect (w : Z) (rows : list pyval) : Prop :=
+  Forall (fun row => exists cells, row = VTuple cells /\ zlen cells = w) rows.
+
+Lemma index_nth_nonneg {A} (l : list A) z : 0 <= z < zlen l ->
+  index_nth l z = nth_error l (Z.to_nat z).
+Proof.
+  intros H. unfold index_nth.
+  replace (z <? 0) with false by (symmetry; apply Z.ltb_ge; lia).
+  replace (z <? 0) with false by (symmetry; apply Z.ltb_ge; lia).
+  replace (zlen l <=? z) with false by (symmetry; apply Z.leb_gt; lia). reflexivity.
+Qed.
+
+Lemma getitem_nth l z x : 0 <= z < zlen l -> nth_error l (Z.to_nat z) = Some x ->
+  py_getitem (VTuple l) (VInt z) = Ok x.
+Proof.
+  intros H E. cbn [py_getitem as_index]. rewrite index_nth_nonneg by exact H. rewrite E. reflexivity.
+Qed.
+
+Lemma index_table w rows i k cells x :
+  zrect w rows -> 1 <= i <= zlen rows -> 1 <= k <= w ->
+  nth_error rows (Z.to_nat (i - 1)) = Some (VTuple cells) ->
+  nth_error cells (Z.to_nat (k - 1)) = Some x ->
+  index_ (VTuple rows) (VInt i) (VInt k) = Ok x.
+Proof.
+  intros Hr Hi Hk Erow Ex.
+  assert (Hcells : zlen cells = w).
+  { unfold zrect in Hr. rewrite Forall_forall in Hr.
+    destruct (Hr _ (nth_error_In _ _ Erow)) as (c & Ec & Hw). injection Ec as <-. exact Hw. }
+  unfold index_. rewrite list_like_tuple. cbn [cond_of bind py_truthy negb].
+  destruct rows as [|row0 rest]; [unfold zlen in Hi; cbn [length] in Hi; lia|].
+  assert (H0 : exists c0, row0 = VTuple c0 /\ zlen c0 = w) by (inversion Hr; assumption).
+  destruct H0 as (c0 & -> & Hw0).
+  cbn [py_getitem as_index]. rewrite index_nth_0. cbn [bind]. rewrite list_like_tuple.
+  cbn [cond_of bind py_truthy negb].
+  destruct c0 as [|x0 c0']; [unfold zlen in Hw0; cbn [length] in Hw0; lia|].
+  cbn [py_getitem as_index]. rewrite index_nth_0. cbn [bind].
+  unfold index_body. cbn [py_truthy].
+  replace (i =? 0) with false by (symmetry; apply Z.eqb_neq; lia).
+  replace (k =? 0) with false by (symmetry; apply Z.eqb_neq; lia).
+  cbn [negb andb b_or py_lt scalar_lt as_num bind].
+  replace (i <? 0) with false by (symmetry; apply Z.ltb_ge; lia).
+  replace (k <? 0) with false by (symmetry; apply Z.ltb_ge; lia).
+  unfold py_sub, Py.arith. cbn [as_num bind]. unfold array_data.
+  rewrite (getitem_nth _ (i - 1) (VTuple cells)) by (try exact Erow; lia). cbn [bind].
+  rewrite (getitem_nth cells (k - 1) x) by (try exact Ex; lia). reflexivity.
+Qed.
+
 (* INDEX(m, i, j) of an h x W matrix, inside *)
 Lemma index_matrix out W i j e :
   rectangular W out -> 1 <= i <= zlen out -> 1 <= j <= Z.of_nat W ->
@@ -35,17 +84,14 @@ Lemma index_matrix out W i j e :
   index_ (matrix out) (VInt i) (VInt j) = Ok e.
 Proof.
   intros Hrect Hi Hj He. unfold matrix.
-  assert (Hr : C16.rect (Z.of_nat W) (map VTuple out)).
-  { unfold C16.rect. apply Forall_map. eapply Forall_impl; [|exact Hrect].
+  assert (Hr : zrect (Z.of_nat W) (map VTuple out)).
+  { unfold zrect. apply Forall_map. eapply Forall_impl; [|exact Hrect].
     intros r Hlr. cbv beta in Hlr |- *. exists r. split; [reflexivity|]. unfold zlen. lia. }
-  rewrite (C16.index_cell_value (Z.of_nat W) (map VTuple out) i j Hr)
-    by (rewrite ?zlen_map; assumption).
   unfold elem2 in He.
   destruct (nth_error out (Z.to_nat (i - 1))) as [r|] eqn:Er; [|discriminate].
-  assert (Em : nth_error (map VTuple out) (Z.to_nat (i - 1)) = Some (VTuple r))
-    by (rewrite nth_error_map, Er; reflexivity).
-  rewrite (nth_error_nth _ _ VNone Em). cbn [C16.cells_of].
-  rewrite (nth_error_nth _ _ VNone He). reflexivity.
+  apply (index_table (Z.of_nat W) (map VTuple out) i j r e Hr); try assumption.
+  - rewrite zlen_map. exact Hi.
+  - rewrite nth_error_map, Er. reflexivity.
 Qed.
 
 (* ================================================= what a cell shows of an element *)
@@ -602,3 +648,47 @@ Proof.
   exists out, M. repeat split; try assumption.
   intros i j Hi Hj. exists (fit_elem rows i j). split; [apply Eo|apply EM]; assumption.
 Qed.
+
+(* ---- the hypotheses of the formula theorems are met by concrete inputs *)
+Definition op_l : pyval := matrix [[VInt 1; VInt 2]].
+Definition op_r : pyval := matrix [[VInt 10]; [VInt 20]].
+Example ex_formula_op_hyps :
+  to_nd op_l = Ok (Nd2 [[VInt 1; VInt 2]]) /\ to_nd op_r = Ok (Nd2 [[VInt 10]; [VInt 20]])
+  /\ bshape (Nd2 [[VInt 1; VInt 2]]) (Nd2 [[VInt 10]; [VInt 20]]) = Some (2%nat, 2%nat)
+  /\ (scalar_like op_l = true -> in_error_codes op_l = Ok false)
+  /\ (scalar_like op_r = true -> in_error_codes op_r = Ok false)
+  /\ op_fixup op_l Add op_r = Ok r22 /\ 1 <= 2 <= 3 /\ 1 <= 2 <= 3.
+Proof.
+  split; [vm_compute; reflexivity|]. split; [vm_compute; reflexivity|]. split; [vm_compute; reflexivity|].
+  split; [discriminate|]. split; [discriminate|]. split; [vm_compute; reflexivity|]. lia.
+Qed.
+
+Definition probe (xs : list pyval) : res pyval := Ok (VTuple xs).
+Definition fun_args : list pyval := [matrix [[VInt 1; VInt 2]]; VInt 7].
+Example ex_formula_fun_hyps :
+  mapM (cse_flag (fun _ => true)) (enumerate 0 fun_args) = Ok [true; false]
+  /\ Forall2 (arg_shape 1 2) [true; false] fun_args
+  /\ first_true [true; false] fun_args = Some (matrix [[VInt 1; VInt 2]])
+  /\ cse_wrapper probe (fun _ => true) fun_args
+     = Ok (matrix [[VTuple [VInt 1; VInt 7]; VTuple [VInt 2; VInt 7]]])
+  /\ cse_member 2 3 (matrix [[VTuple [VInt 1; VInt 7]; VTuple [VInt 2; VInt 7]]]) 2 2
+     = shown (VTuple [VInt 2; VInt 7])
+  /\ cse_member 2 3 (matrix [[VTuple [VInt 1; VInt 7]; VTuple [VInt 2; VInt 7]]]) 2 3 = Ok NA.
+Proof.
+  split; [vm_compute; reflexivity|]. split.
+  - constructor.
+    + intros _. exists [[VInt 1; VInt 2]]. repeat split. repeat constructor.
+    + constructor; [discriminate|constructor].
+  - split; [reflexivity|]. split; [vm_compute; reflexivity|]. split; vm_compute; reflexivity.
+Qed.
+
+Example ex_scalar_error_hyps :
+  operand op_l /\ operand excelutil.c_DIV0 /\ (exists x, op_l = VTuple x)
+  /\ scalar_like excelutil.c_DIV0 = true /\ in_error_codes excelutil.c_DIV0 = Ok true.
+Proof.
+  split; [right; eexists; reflexivity|]. split; [left; reflexivity|]. split; [eexists; reflexivity|].
+  split; [reflexivity|vm_compute; reflexivity].
+Qed.
+
+Example ex_member_cells_hyp : In ((11, 7), (2, 2, 2, 2)) (load_members 10 6 2 2).
+Proof. vm_compute. auto. Qed.
